@@ -156,7 +156,7 @@ func zzC10ServerPicksOfferedKeyShare() {
 //verif:stub (*math/rand.Rand).Shuffle zzStubShuffle
 //verif:stub (*utls.Conn).sendAlert zzStubSendAlert
 //verif:expect end
-//verif:doc C10 kernels: for every predefined parrot, every version it advertises on the wire is accepted by pickTLSVersion; every offered TLS 1.3 suite is accepted by checkServerHelloOrHRR (session id echoed); every offered TLS 1.0-1.2 suite that utls implements is accepted by pickCipherSuite; every offered ALPN protocol is accepted by checkALPN.
+//verif:doc C10 kernels: for every predefined parrot, every version it advertises on the wire is accepted by pickTLSVersion; every offered TLS 1.3 suite is accepted by checkServerHelloOrHRR (session id echoed); every offered TLS 1.0-1.2 suite that utls implements is accepted by pickCipherSuite; every offered ALPN protocol is accepted by checkALPN; every signature algorithm in the wire signature_algorithms extension that utls implements passes the acceptance test the TLS 1.2 key agreement applies to the server's choice.
 func zzC10ServerPicksOfferedVersionAndSuite() {
 	p := zzChooseParrot()
 	cfg := zzConfig("example.com")
@@ -184,7 +184,7 @@ func zzC10ServerPicksOfferedVersionAndSuite() {
 	}
 	adv := zzAdvertisedVersions(&h, specMin, specSV)
 	hello := uc.HandshakeState.Hello.getPrivatePtr()
-	switch verifChoice("kernel", 4) {
+	switch verifChoice("kernel", 5) {
 	case 0:
 		v := adv[verifChoice("version", len(adv))]
 		sh := &serverHelloMsg{vers: v}
@@ -216,6 +216,20 @@ func zzC10ServerPicksOfferedVersionAndSuite() {
 			uc.vers = VersionTLS12
 			hs := &clientHandshakeState{c: uc.Conn, hello: hello, serverHello: &serverHelloMsg{vers: VersionTLS12, cipherSuite: s}}
 			verifAssertClass(hs.pickCipherSuite() == nil && uc.cipherSuite == s, "offered-implemented-suite-accepted", p.name)
+		}
+	case 4:
+		// TLS 1.2 ServerKeyExchange (key_agreement.go) accepts a signature
+		// algorithm iff isSupportedSignatureAlgorithm(alg, clientHello.supportedSignatureAlgorithms)
+		if sb, ok := h.ext(13); ok && len(sb) >= 2 {
+			algs := sb[2:]
+			n := len(algs) / 2
+			if n > 0 {
+				i := verifChoice("sigalg", n)
+				alg := SignatureScheme(uint16(algs[2*i])<<8 | uint16(algs[2*i+1]))
+				if _, _, terr := typeAndHashFromSignatureScheme(alg); terr == nil {
+					verifAssertClass(isSupportedSignatureAlgorithm(alg, hello.supportedSignatureAlgorithms), "offered-signature-algorithm-accepted", p.name)
+				}
+			}
 		}
 	case 3:
 		if len(hello.alpnProtocols) > 0 {
